@@ -102,7 +102,7 @@ func propC12(c *ctx) error {
 			e := base
 			failKind := "none"
 			if pos >= 0 {
-				failKind = r.pick([]string{"ferr", "nope", "fpanic", "wrongkind", "method", "nil"})
+				failKind = r.pick([]string{"ferr", "nope", "fpanic", "wrongkind", "method", "nil", "safe"})
 				var repl *Ex
 				switch failKind {
 				case "ferr", "fpanic":
@@ -111,6 +111,10 @@ func propC12(c *ctx) error {
 					repl = &Ex{Op: "call", Text: "st.Fail"}
 				case "nope":
 					repl = &Ex{Op: "var", Text: "nope"}
+				case "safe":
+					// the `?.` spelling of member access is the same access: a missing field, a missing key and a nil
+					// receiver are failures, not nil values
+					repl = &Ex{Op: "var", Text: r.pick([]string{"st?.Nope", "vnil?.x", "st.M?.absent", "st?.P?.A"})}
 				case "nil":
 					// evaluates SUCCESSFULLY to untyped nil: a failure only where the operator needs a bool / number
 					repl = &Ex{Op: "var", Text: r.pick([]string{"nil", "vnil"}), Ty: 'n'}
